@@ -101,6 +101,13 @@ fn main() {
             std::fs::write(&args[3], serde_json::to_string_pretty(&small).unwrap()).unwrap();
             emit(json!({"ev":"shrunk","steps":steps}));
         }
+        "randcheck" => {
+            let (runs, bad) = hotswap::randcheck(args[2].parse().unwrap(), args[3].parse().unwrap());
+            for b in bad.iter().take(6) {
+                println!("{b}\n=====");
+            }
+            println!("randcheck: {runs} runs, {} mismatches", bad.len());
+        }
         "selfcheck" => {
             let (ok, report) = hotswap::selfcheck();
             emit(json!({"ev":"selfcheck","ok":ok,"report":report}));
